@@ -6,6 +6,7 @@
 (*        complete = the body is well formed and not truncated, lie = some per-field       *)
 (*        Content-Length header disagrees with the boundary grammar                        *)
 (*   Field{name_ok}  FieldEnd{n, ok}  End  Err{kind}  Stall                                *)
+(*   Held{peak, limit, chunk}  what the parser held at most, for runs with a buffer limit  *)
 (* RFC 2046 5.1.1 / RFC 7578: parts are delimited by CRLF "--" boundary, whatever the      *)
 (* content looks like and however the stream is cut; a per-part Content-Length is ignored. *)
 EXTENDS Integers, Sequences, TLC
@@ -32,6 +33,9 @@ RefStep(rs, e) ==
            (IF ~rs.complete THEN "C15/End/clean-end-of-malformed-or-truncated-body" ELSE "C15/End/fields-missing") \o Suffix(rs))
     [] e.ev = "Err" ->
          E(~rs.complete, [rs EXCEPT !.ended = TRUE], "C15/Err/well-formed-body-rejected/" \o e.kind \o Suffix(rs))
+    \* the parser buffers no more than its configured limit: heap high-water mark of the run against limit + one incoming chunk
+    \* (twice, because a growing buffer doubles its capacity) + a fixed allowance for the parser's own small allocations
+    [] e.ev = "Held" -> E(e.peak <= 2 * e.limit + 2 * e.chunk + 16384, rs, "C15/Held/parser-buffered-beyond-its-limit")
     [] e.ev = "Stall" -> Rej("C15/Stall/no-result-after-end-of-stream" \o Suffix(rs), "")
     [] e.ev = "Panic" -> Rej("C19/Panic", "")
     [] OTHER -> rs
